@@ -149,6 +149,13 @@ def seqStep (st : SeqState) (line : String) : SeqState × String :=
         ({ st with sys := sys }, "cl 1")
       else (st, "cl 0")
     | _, _, _ => (st, "bad-op parse")
+  -- `push_child_spans` with the caller's last handle of the set (moved): the set is pushed, the variable is gone
+  | [t, "pushChildLast", v, x] =>
+    match t.toNat? with
+    | some t =>
+      let (sys, obs) := exec st.sys t (.pushChild v x)
+      ({ st with sys := (match obs with | .ok => { sys with lspans := assocDel sys.lspans x } | _ => sys) }, showObs st.nthreads obs)
+    | none => (st, "bad-op parse")
   -- a caught panic unwinds through the local spans above the innermost scope: they are dropped newest first, as by `close`
   | [t, "unwindLocals"] =>
     match t.toNat? with
@@ -209,6 +216,7 @@ def offStep (line : String) : String :=
   | [_, "sleep", _] => "ok"
   | [_, "flushBegin"] => "ok"
   | [_, "evNew", _, _, _] => "ok"
+  | [_, "pushChildLast", _, _] => "ok"
   | [_, "unwindLocals"] => "ok"
   | [_, "localEnterRe", _] => "ok"
   | [_, "childLocalRe", _, _] => "ok"
